@@ -164,7 +164,7 @@ func (e *e2eEnv) build(c *e2eCase, budget int, n int) (layers [][]tarcase.Ent, i
 			{Path: "/work", Type: "directory", UID: 65532, GID: 65532, Permissions: 0o750},
 			{Path: "/work/sub/dir", Type: "directory", UID: 0, GID: 0, Permissions: 0o755, Recursive: true},
 			{Path: "/usr/lib/unowned.conf", Type: "empty-file", UID: 0, GID: 0, Permissions: 0o644},
-			{Path: "/work/link-to-tool", Type: "symlink", Source: "/usr/bin/tool", UID: 0, GID: 0},
+			{Path: "/work/link-to-sub", Type: "symlink", Source: "/work/sub", UID: 0, GID: 0},
 		}
 	}
 	if budget >= 0 {
